@@ -369,3 +369,95 @@ def c01h(ctx):
             continue
         (ctx.ok if o.status == 'ok' else ctx.bad)('%s:%s' % (o.rule, o.construct), o.msg, o.where)
     ctx.stats['functions'] |= {q for q in sub.stats['functions'] if 'Grid.' in q}
+
+
+@rule('C01.i', floor=2)
+def c01i(ctx):
+    """two rectangles are "the same" only if all four edges agree: bbox_equals decides whether merged tiles are handed out without
+    resampling (ImageTransformer._no_transformation_needed), whether a tiled=true request is aligned (CacheMapLayer._image) and
+    whether one grid's level is a subset of another's.  An edge that is not compared lets a request with another extent be answered
+    with the unscaled tiles: the content is stretched"""
+    fn = ctx.fn('mapproxy/srs.py:bbox_equals')
+    if len(fn.params) < 2:
+        raise Undecided('bbox_equals: parameters not found')
+    a, b = fn.params[0], fn.params[1]
+    rets = returns_of(fn.node)
+    pairs, foreign = [], []
+    for r in rets:
+        e = fn.canon.expr(r.value)
+        terms = e.values if isinstance(e, ast.BoolOp) and isinstance(e.op, ast.And) else [e]
+        for t in terms:
+            subs = [x for x in ast.walk(t) if isinstance(x, ast.Subscript) and isinstance(x.value, ast.Name) and x.value.id in (a, b)]
+            idx = {(x.value.id, const_value(x.slice)) for x in subs}
+            ia = {i for n, i in idx if n == a}
+            ib = {i for n, i in idx if n == b}
+            if isinstance(t, ast.Compare) and len(ia) == 1 and ia == ib and isinstance(t.ops[0], (ast.Lt, ast.LtE)) and \
+                    contains(t.left, lambda x: is_call(x, 'abs')):
+                pairs.append(next(iter(ia)))
+            else:
+                foreign.append(unparse(t)[:60])
+    ok = bool(rets) and not foreign and sorted(set(pairs)) == [0, 1, 2, 3]
+    ctx.check(ok, 'bbox_equals:all-four-edges', 'bbox_equals is the conjunction of |a[i] - b[i]| < delta for i = 0, 1, 2, 3 (same index on both sides)', fn,
+              fail='bbox_equals does not compare every edge with the same edge of the other rectangle (compared: %s%s): rectangles that '
+                   'differ in an unchecked edge count as equal and tiles are handed out unscaled for another extent' % (
+                       sorted(pairs), '; other terms: %s' % foreign if foreign else ''))
+    users = [('mapproxy/image/transform.py:ImageTransformer._no_transformation_needed', 'src_bbox', 'dst_bbox'),
+             ('mapproxy/layer.py:CacheMapLayer._image', 'bbox', 'src_bbox')]
+    for qn, x, y in users:
+        f = ctx.fn(qn)
+        calls = [c for c in f.walk() if is_call(c, 'bbox_equals')]
+        ok = bool(calls) and all(len(c.args) >= 2 and (same(c.args[0], x) and same(c.args[1], y) or same(c.args[0], y) and same(c.args[1], x))
+                                 for c in calls)
+        ctx.check(ok, '%s:compares-request-with-tiles' % f.short, 'the shortcut compares the requested rectangle with the rectangle of the tiles', f)
+
+
+TILE_BBOX_CLIPPED_OK = {
+    # the region / LatLonAltBox of a KML document describes what is visible: the part of the tile inside the grid
+    'mapproxy/service/kml.py:KMLServer.kml', 'mapproxy/service/kml.py:KMLServer._tile_wgs_bbox',
+    # the sub tiles listed in the document are those inside the visible part
+    'mapproxy/service/kml.py:KMLServer._get_subtiles',
+}
+TILE_BBOX_PASS_THROUGH = {'mapproxy/service/tile.py:TileLayer.tile_bbox': 'limit', 'mapproxy/service/kml.py:KMLServer._tile_wgs_bbox': 'limit'}
+
+
+@rule('C01.j', floor=15)
+def c01j(ctx):
+    """the rectangle of a tile is the full tile: TileGrid.tile_bbox(coord, limit=True) cuts the rectangle at the grid border and is
+    only meant for descriptions (KML regions).  Wherever a tile rectangle becomes the extent of an image -- the BBOX of an upstream
+    request, the extent of a tile that is merged, the georeference of a response -- the clipped rectangle would stretch the content
+    of every tile that hangs over the grid border"""
+    n = 0
+    for rel, mod in sorted(ctx.repo.modules.items()):
+        if '/test/' in rel or not rel.startswith('mapproxy/'):
+            continue
+        for fn in ctx.repo.fns_in(rel + ':'):
+            if '#' in fn.qn:
+                continue
+            for c in fn.walk():
+                if not (isinstance(c, ast.Call) and isinstance(c.func, ast.Attribute) and c.func.attr in ('tile_bbox', '_tile_wgs_bbox')):
+                    continue
+                n += 1
+                pos = 2 if c.func.attr == '_tile_wgs_bbox' else 1 if not (isinstance(c.func.value, ast.Name) and c.func.value.id == 'layer' or
+                                                                         'use_profiles' in [k.arg for k in c.keywords]) else 2
+                lim = keyword(c, 'limit', pos if len(c.args) > pos else None)
+                k = sum(1 for o in ctx.obs if o.construct.startswith('%s:%s#' % (fn.short, c.func.attr)))
+                construct = '%s:%s#%d' % (fn.short, c.func.attr, k)
+                if lim is None or const_value(lim, 1) in (False, None, 0):
+                    ctx.ok(construct, 'full tile rectangle', fn, c)
+                    continue
+                param_ok = isinstance(lim, ast.Name) and TILE_BBOX_PASS_THROUGH.get(fn.qn) == lim.id
+                ok = fn.qn in TILE_BBOX_CLIPPED_OK or param_ok
+                ctx.check(ok, construct, 'clipped rectangle only for the KML description of a tile (or passed through for it)', fn, c,
+                          fail='%s asks for the tile rectangle clipped at the grid border (limit=%s): the image of a tile that hangs over the '
+                               'border is taken for a smaller ground rectangle than it shows' % (fn.short, unparse(lim)))
+    # the pass-through functions are only asked for the clipped form by the KML service
+    for rel, mod in sorted(ctx.repo.modules.items()):
+        if '/test/' in rel or not rel.startswith('mapproxy/'):
+            continue
+        for fn in ctx.repo.fns_in(rel + ':'):
+            for c in fn.walk():
+                if isinstance(c, ast.Call) and any(k.arg == 'limit' and const_value(k.value, 0) is True for k in c.keywords) and \
+                        not (isinstance(c.func, ast.Attribute) and c.func.attr in ('tile_bbox', '_tile_wgs_bbox')):
+                    ctx.check(rel == 'mapproxy/service/kml.py', '%s:limit-true-call' % fn.short, 'limit=True only in the KML service', fn, c)
+    if n < 15:
+        raise Undecided('only %d tile_bbox call sites found' % n)
